@@ -50,6 +50,15 @@ theorem C15_accumulation_fails (d y0 : List Rat) (tol : Rat) (hlen : d.length = 
   right
   exact Rat.not_lt.mpr hd
 
+/-- RELATIVE NORM, ZERO COMPONENT: a comparison against a previous state with a component that is exactly 0 is never
+"small" (numpy yields inf/nan there) — a variable resting at 0 can delay success, never cause it. -/
+theorem C15_rel_norm_zero_component_never_small (tol : Rat) (y2 y1 : List Rat) (h : (0 : Rat) ∈ y1) :
+    smallRel tol y2 y1 = false := by
+  have : y1.any (· == 0) = true := by
+    rw [List.any_eq_true]
+    exact ⟨0, h, by simp⟩
+  simp [smallRel, this]
+
 /-- CONTRACTION ⇒ CLOSE: if one integrator step contracts distances to the steady state `xs` by a factor
 `c < 1` and "small" means `dist y2 y1 < tol`, a reported steady state lies within `c/(1-c)·tol` of `xs`. -/
 theorem C15_contraction_close {E : Type} [PseudoMetricSpace E] (step : E → E) (xs y0 : E) (c tol : ℝ)
